@@ -1013,3 +1013,46 @@ var _ = late(func() {
 			}
 		}})
 })
+
+// C20.reset-rearms: Reset (and NewJitterTicker) put the new period into effect at once: every path through them reaches
+// schedule(), which stops the armed timer and arms a new one from the new d and jitter. A Reset that leaves a running timer
+// alone lets the first tick after it arrive on the OLD schedule - far earlier than d - jitter after the Reset when the ticker was
+// slowed down.
+var _ = late(func() {
+	p := properties["C20"]
+	p.Rules = append(p.Rules, &Rule{ID: "C20.reset-rearms", Floor: 2, Clause: "every path through JitterTicker.Reset and NewJitterTicker that stores the period calls schedule() before returning (typestate over their returns): the armed timer of the old period is replaced, not left to fire",
+		Run: func(c *Ctx, r *R) {
+			sch := c.fn("xtime.JitterTicker.schedule")
+			if sch == nil {
+				r.undecided("xtime.JitterTicker.schedule|missing", token.NoPos, "anchor not found")
+				return
+			}
+			for _, name := range []string{"xtime.JitterTicker.Reset", "xtime.NewJitterTicker"} {
+				fn := c.fn(name)
+				if fn == nil {
+					r.undecided(name+"|missing", token.NoPos, "anchor not found")
+					continue
+				}
+				pkg := fn.Pkg
+				pf := &PF{N: 2, InScope: func(f *ssa.Function) bool {
+					return rootFn(origin(f)).Pkg == pkg && f.Blocks != nil && origin(f) != fn && origin(f) != sch
+				}}
+				pf.Instr = func(f *ssa.Function, in ssa.Instruction, q int) (StateSet, bool) {
+					if call, ok := in.(*ssa.Call); ok {
+						if cal := staticCallee(&call.Call); cal != nil && origin(cal) == sch {
+							return ss(1), true
+						}
+					}
+					return 0, false
+				}
+				n := 0
+				for _, e := range pf.Exits(fn, ss(0)) {
+					n++
+					r.ok(e.States == ss(1), name+"|rearmed#"+itoa(n), retPos(e.Ret), "a path returns without having called schedule(): the timer armed for the previous period stays armed and its tick arrives on the old schedule")
+				}
+				if n == 0 {
+					r.undecided(name+"|returns", fn.Pos(), "no return found")
+				}
+			}
+		}})
+})
